@@ -230,6 +230,9 @@ pub struct App {
     /// (local datagram_receive_buffer_size, local datagram_send_buffer_size)
     pub dgram_cfg: (Option<usize>, usize),
     pub peer_dgram_recv: Option<usize>,
+    /// manual mode: events are only queued in `manual_events`; the check operates the connection
+    pub manual: bool,
+    pub manual_events: Vec<Event>,
 }
 
 fn dir_of(bidi: bool) -> Dir {
@@ -274,6 +277,8 @@ impl App {
             last_sent_dgram: 0,
             dgram_cfg: (Some(usize::MAX), usize::MAX),
             peer_dgram_recv: None,
+            manual: false,
+            manual_events: vec![],
         }
     }
 
@@ -294,6 +299,18 @@ impl App {
     pub fn on_event(&mut self, c: &mut Connection, ev: Event) {
         if self.record_events {
             self.events.push(format!("{ev:?}"));
+        }
+        if self.manual {
+            match &ev {
+                Event::Connected => self.connected = true,
+                Event::ConnectionLost { reason } => {
+                    self.lost.push(format!("{reason:?}"));
+                    self.lost_reasons.push(reason.clone());
+                }
+                _ => {}
+            }
+            self.manual_events.push(ev);
+            return;
         }
         match ev {
             Event::Connected => {
